@@ -79,11 +79,13 @@ def _cfg(tier):
             ],
             "width_len": 2,
         }
+    all7 = ["std", "ident", "negident", "allneg", "zero", "asym", "large"]
     return {
         "banded": [
-            {"k": [2, 2], "len": [4, 4], "fams": ["std", "ident", "negident", "allneg", "zero", "asym", "large"],
-             "gaps": I.GAPS, "long_only": False},
-            {"k": [2, 2], "len": [5, 5], "fams": ["std", "allneg"], "gaps": [-1, (-2, -1)], "long_only": True},
+            {"k": [2, 2], "len": [3, 3], "fams": all7, "gaps": I.GAPS, "long_only": False},
+            {"k": [2, 2], "len": [4, 4], "fams": ["std", "allneg", "zero", "asym", "negident"],
+             "gaps": [0, -1, (-1, -1), (-2, -1), (0, -2)], "long_only": True},
+            {"k": [2, 2], "len": [5, 5], "fams": ["std"], "gaps": [-1, (-2, -1)], "long_only": True},
             {"k": [2, 3], "len": [3, 3], "fams": ["rect", "rectneg"], "gaps": [-1, (-2, -1), 0, (0, -2)],
              "long_only": False},
             {"k": [3, 3], "len": [3, 3], "fams": ["std", "asym", "allneg"], "gaps": [-1, (-2, -1), 0],
@@ -92,16 +94,16 @@ def _cfg(tier):
         "banded_extra_maxnum_fams": ["std", "allneg", "zero"],
         "banded_reversed_fams": ["asym", "rect"],
         "gapped": [
-            {"k": [2, 2], "len": [4, 4], "fams": ["std", "ident", "negident", "allneg", "zero", "asym", "large"],
-             "gaps": I.GAPS_NEG, "long_only": False},
-            {"k": [2, 2], "len": [5, 5], "fams": ["std", "asym"], "gaps": [-1, (-2, -1)], "long_only": True},
+            {"k": [2, 2], "len": [4, 4], "fams": ["std", "allneg", "zero", "asym", "large"], "gaps": I.GAPS_NEG,
+             "long_only": False},
+            {"k": [2, 2], "len": [5, 5], "fams": ["std"], "gaps": [-1, (-2, -1)], "long_only": True},
             {"k": [2, 3], "len": [3, 3], "fams": ["rect", "rectneg"], "gaps": [-1, (-2, -1), (-1, -2)],
              "long_only": False},
             {"k": [3, 3], "len": [3, 3], "fams": ["std", "asym"], "gaps": [-1, (-2, -1)], "long_only": False},
         ],
         "gapped_extra_fams": ["std", "rect", "asym"],
         "ungapped": [
-            {"k": [2, 2], "len": [5, 5], "fams": ["std", "ident", "negident", "allneg", "zero", "asym", "large"]},
+            {"k": [2, 2], "len": [5, 5], "fams": all7},
             {"k": [3, 3], "len": [4, 4], "fams": ["std", "asym", "allneg"]},
             {"k": [2, 3], "len": [4, 3], "fams": ["rect", "rectneg"]},
         ],
@@ -140,7 +142,7 @@ def shards(tier, seed):
     variant = seed % 3
     embed = seed % 4
     out = []
-    per = {"banded": 12 if tier == "quick" else 6, "gapped": 24, "ungapped": 75}
+    per = {"banded": 12, "gapped": 24, "ungapped": 75}
     for kind in ("banded", "gapped", "ungapped"):
         for gi, g in enumerate(c[kind]):
             np_ = _npairs(g["k"], g["len"], g.get("long_only", False))
